@@ -25,7 +25,11 @@ RULE = ("graph cases: every directed graph (self-loops included) on <=3 labelled
         "that target a parameter of that group at least once - targets that only the final apply_instantiation_links pass "
         "fills, read back from the returned cfg; histories: in 40% of all link cases the parser is USED (parse_object + "
         "instantiate_classes) after one or two of the link_arguments calls, most often right before the last (possibly "
-        "cycle-closing) link, before the remaining links are added; prefix-name cases: the layouts with 2-3 declarations re-run with component names "
+        "cycle-closing) link, before the remaining links are added; continued histories (cont): any sequence of 2-7 distinct (source, "
+        "target object) pairs over every layout with <=3 declarations, cyclic additions anywhere (30 walks per layout "
+        "quick, 250 thorough, 85% of those without a rejection before the last call dropped): the runner catches the "
+        "ValueError of every rejected link and goes on adding the remaining links (and using the parser), the observation "
+        "carries the numbers of the rejected calls; prefix-name cases: the layouts with 2-3 declarations re-run with component names "
         "of which some are string prefixes of others (schemes a/ab/b, a/ab/abc, a/a_b/ab, ba/b/a; the permutations of a scheme "
         "are the declaration orders of the names): quick: every link sequence of length <=2 over G G G, S S S, G S G, G G, "
         "S G in all 6 permutations of a/ab/b plus one seeded permutation of each other scheme, one seeded renaming of every "
@@ -51,6 +55,8 @@ ASSUMPTIONS = [
     "model stops (outcome Unmodelled); exceptions escaping instantiate_classes are compared by kind 'exception' only",
     "using the parser between two link_arguments calls has no effect on later calls (the model keeps no state between calls; "
     "the harness checks exactly this on 40% of the link cases)",
+    "a caller that goes on after a rejected link catches exactly the ValueError 'Graph has cycles' of link_arguments; any other "
+    "exception of link_arguments ends the case",
     "whole class-typed arguments as link targets (add_argument('--top', type=C); link(..., 'top')) are not modelled: link "
     "targets are constructor parameters of constructed objects or parameters of a never instantiated group",
     "links whose source and target lie in the same class-typed argument (is_nested_instantiation_link) are handed to the "
@@ -364,6 +370,37 @@ def sink_cases(rng, tier):
     return cases
 
 
+def cont_cases(rng, tier):
+    """Histories that go on after a rejected link: any sequence of distinct (source component, target object) pairs, cyclic
+    additions anywhere; the caller catches the ValueError and keeps adding links, then uses the parser."""
+    cases = []
+    for decls in all_layouts(3 if tier == "quick" else 4):
+        if len(decls) > 3:
+            continue
+        srcs, units = layout_units(decls)
+        contain = [(u, p) for u, _, p in units if p]
+        pairs = [(s, u) for s in srcs for u, _, _ in units]
+        if len(pairs) < 2:
+            continue
+        for _ in range(30 if tier == "quick" else 250):
+            cand = list(pairs)
+            rng.shuffle(cand)
+            seq = cand[:rng.randint(2, min(7, len(cand)))]
+            # wanted: a rejection that is NOT the last call
+            acc, early = [], False
+            for i, e in enumerate(seq):
+                if cyclic(acc + [e] + contain):
+                    early = early or i < len(seq) - 1
+                else:
+                    acc.append(e)
+            if not early and rng.random() < 0.85:
+                continue
+            c = make_case(decls, seq, units, rng)
+            c["cont"] = True
+            cases.append(c)
+    return cases
+
+
 def with_uses(cases, rng):
     """Link histories interleaved with uses of the parser: in 40% of the cases the parser is used (parse_object +
     instantiate_classes) after one or two of the link_arguments calls, before the remaining links are added.  The model
@@ -379,7 +416,7 @@ def with_uses(cases, rng):
 
 
 def generate(rng, tier):
-    links = link_cases(rng, tier) + prefix_name_cases(rng, tier) + sink_cases(rng, tier)
+    links = link_cases(rng, tier) + prefix_name_cases(rng, tier) + sink_cases(rng, tier) + cont_cases(rng, tier)
     return with_uses(links, rng) + graph_cases(rng, tier)
 
 
@@ -393,7 +430,7 @@ def is_link(case):
 def canon_link_obs(o):
     """Runner output -> {"outcome": ok|link_error|exc|unmodelled, "at": k, "log": [...], "raw": ...}"""
     out = o["outcome"]
-    res = {"raw_outcome": out, "msg": o.get("msg", "")}
+    res = {"raw_outcome": out, "msg": o.get("msg", ""), "rejected": o.get("rejected", [])}
     if out == "link_error" and o.get("why") == "cycle" and not o["log"]:
         res.update(outcome="link_error", at=o["at"], log=[])
     elif out.startswith("exc:"):
@@ -484,6 +521,9 @@ def term(case, obs):
         oc = {"ok": "OOk", "exc": "OExc", "unmodelled": "OUnmodelled"}.get(obs["outcome"])
         if obs["outcome"] == "link_error":
             oc = "OLinkErr %s" % g_nat(obs["at"])
+        if case.get("cont"):
+            return "LinkContCase %s %s %s (%s, %s)" % (ds, ls, g_list([g_nat(k) for k in obs.get("rejected", [])], "nat"), oc,
+                                                       g_list([g_event(e) for e in obs["log"]], "event"))
         return "LinkCase %s %s (%s, %s)" % (ds, ls, oc, g_list([g_event(e) for e in obs["log"]], "event"))
     es = g_list([g_pair(g_str(s), g_str(t)) for s, t in case], "edge")
     if "order" in obs:
@@ -497,7 +537,7 @@ def term(case, obs):
 
 def nontrivial_key(case, obs):
     if is_link(case):
-        return None if not case["links"] else repr((case, obs.get("outcome"), obs.get("at"), obs.get("log")))
+        return None if not case["links"] else repr((case, obs.get("outcome"), obs.get("at"), obs.get("rejected"), obs.get("log")))
     return None if len(case) < 2 else repr((case, obs))
 
 
@@ -514,7 +554,8 @@ def describe(case, obs):
         return {"declarations (name, shape; see tie/impl/c16_links.py)": case["decls"],
                 "link_arguments calls in order (apply_on='instantiate')": case["links"],
                 "parser used (parse_object + instantiate_classes) after this many link_arguments calls": case.get("uses", []),
-                "observed": {k: v for k, v in obs.items() if k in ("outcome", "at", "log", "raw_outcome", "msg", "raw_log")}}
+                "the ValueError of a rejected link is caught and the remaining links are still added": bool(case.get("cont")),
+                "observed": {k: v for k, v in obs.items() if k in ("outcome", "at", "rejected", "log", "raw_outcome", "msg", "raw_log")}}
     return {"edges_in_insertion_order": case, "DirectedGraph_answer": obs}
 
 
@@ -540,6 +581,30 @@ def shrink(case):
         yield case[:i] + case[i + 1:]
 
 
+def search(rng, tier, broken):
+    """After a broken proof / tie: ONE fresh quick-sized batch (about a minute), whatever the tier; the smallest case that
+    contradicts the spec inside the guard (or outside it in a class that is not a listed finding) is the failing input."""
+    import sys
+
+    from tie import framework as F
+
+    mod = sys.modules[__name__]
+    cases = generate(rng, "quick")
+    obs = observe(cases)
+    bm, bi, bo = F.judge_cases(mod, cases, obs, tag="f")
+    known = F.load_known_findings(PROP)
+    bad = set(bi) | {i for i, k in bo if FINDING_CLASSES.get(k) not in known}
+    if not bad:
+        return None
+
+    def size(i):
+        c = cases[i]
+        return (len(c["links"]), len(c["decls"]), len(c.get("uses", []))) if is_link(c) else (len(c), 0, 0)
+
+    i = min(bad, key=size)
+    return {"case": cases[i], "observed": obs[i], "explain": describe(cases[i], obs[i])}
+
+
 META = {
     "level_text": "Proved in Coq for ALL inputs of the modelled space (coq/Properties/C16.v): (1) C16_topo_sort_correct / "
                   "C16_topo_on_edge_lists: DirectedGraph.add_edge + get_topological_order, for any edge list over any labels, "
@@ -562,15 +627,20 @@ META = {
                   "rejected at that call); C16_small_space_three_links: the same for every 3-link sequence over the layouts with <=2 "
                   "objects (25,120 cases), both code variants; C16_small_space_final_pass_targets: the same with one class group added "
                   "with instantiate=False at every declaration position (9,000 cases: targets that only the final pass of "
-                  "instantiate_classes fills, read from the returned cfg). Three refuted-unguarded witnesses (C16_nested_target_order_refuted, "
+                  "instantiate_classes fills, read from the returned cfg); C16_accepted_set_acyclic_after_rejections / "
+                  "C16_accepted_set_has_order_after_rejections (general: after any history of accepted and rejected "
+                  "link_arguments calls the links the parser holds are acyclic and instantiate_classes finds an order) and "
+                  "C16_small_space_histories_with_rejections (kernel-evaluated, 25,120 three-link histories, both variants: "
+                  "exactly the links closing a cycle between objects are rejected, the construction obeys the accepted "
+                  "ones). Three refuted-unguarded witnesses (C16_nested_target_order_refuted, "
                   "C16_source_under_group_refuted, C16_nested_self_link_refuted) = the three findings (two repaired in /repo, nested-self-link open). "
                   "Only exercised by the correspondence (not proved in general): that the values received, the exactly-once "
                   "construction and the compute_fn calls of the model satisfy the spec beyond the small space (longer link "
-                  "sequences, two-source links, four-object nested layouts), and that model = implementation (15.4k cases quick, "
+                  "sequences, two-source links, four-object nested layouts), and that model = implementation (16.1k cases quick, "
                   "~120k thorough: every digraph on <=3 nodes, every loop-free one on 4, all 543 DAGs on four class groups in all "
                   "declaration orders, component names that are string prefixes of one another in all declaration orders, source "
                   "attributes holding None / 0 / '' / False, two sources from one component, never instantiated target groups, uses of the "
-                  "parser interleaved with the link_arguments calls).",
+                  "parser interleaved with the link_arguments calls, histories that go on after rejected links).",
     "level_note": "Trusted: Coq kernel/VM; the hand-written models Model/Graph.v and Model/LinkOrder.v outside the enumerated "
                   "cases (in particular the abstraction of a parser to a list of components with dest/kind/units, and of "
                   "find_subclass_action_or_class_group to resolve_src); the observation harness tie/impl/c16_*.py with its scratch "
